@@ -64,12 +64,16 @@ def cores_strategy():
     ).map(sorted)
 
 
-def piece_strategy(tier):
-    levels = [4, 16] if tier == "quick" else [4, 16, 64]
-    coord = st.integers(0, 255)
+def piece_strategy(tier, limit=256):
+    """Pieces inside the square [0, limit)^2: real machines start at chip
+    (0, 0), so most requests sit in the corner at the origin and fill whole
+    aligned blocks there."""
+    levels = [s for s in ([4, 16] if tier == "quick" else [4, 16, 64])
+              if s <= limit]
+    coord = st.integers(0, limit - 1)
 
     def block(size):
-        n = 256 // size
+        n = limit // size
         return st.fixed_dictionaries({
             "kind": st.just("block"), "size": st.just(size),
             "bx": st.integers(0, n - 1).map(lambda i: i * size),
@@ -94,8 +98,19 @@ def piece_strategy(tier):
         "kind": st.just("chip"), "x": coord, "y": coord,
         "cores": st.just([])})
     options = [sparse, rect, empty] + [block(s) for s in levels]
-    if tier == "thorough":
+    if tier == "thorough" and limit >= 64:
         options.append(block(64))
+    if tier == "quick" and limit == 64:
+        # the whole 64x64 corner block (few cores: 4096 chips per piece)
+        options.append(st.fixed_dictionaries({
+            "kind": st.just("block"), "size": st.just(64), "bx": st.just(0),
+            "by": st.just(0), "cores": st.sets(st.sampled_from(CORE_POOL),
+                                               min_size=1, max_size=2)
+            .map(sorted),
+            "hole": st.one_of(st.none(), st.none(), st.tuples(
+                st.integers(0, 63), st.integers(0, 63),
+                st.one_of(st.none(), st.integers(0, 17))))}))
+    if tier == "thorough" and limit == 256:
         options.append(st.fixed_dictionaries({
             "kind": st.just("block"), "size": st.just(256), "bx": st.just(0),
             "by": st.just(0), "cores": st.sets(st.sampled_from(CORE_POOL),
@@ -108,11 +123,16 @@ def piece_strategy(tier):
 
 
 def strat_targets(tier):
-    return st.fixed_dictionaries({
-        "pieces": st.lists(piece_strategy(tier), min_size=1, max_size=5),
-        "container": st.sampled_from(["set", "set", "list", "tuple",
-                                      "frozenset", "reversed-list"]),
-        "dict": st.sampled_from(["dict", "ordered-reversed"])})
+    def with_limit(limit):
+        return st.fixed_dictionaries({
+            "pieces": st.lists(piece_strategy(tier, limit), min_size=1,
+                               max_size=5),
+            "limit": st.just(limit),
+            "container": st.sampled_from(["set", "set", "list", "tuple",
+                                          "frozenset", "reversed-list"]),
+            "dict": st.sampled_from(["dict", "ordered-reversed"])})
+    return st.sampled_from([256, 256, 256, 4, 8, 16, 16, 32, 64, 64,
+                            128]).flatmap(with_limit)
 
 
 def build_targets(case):
@@ -190,7 +210,8 @@ def check_targets(case):
     partial = bool(levels - {3}) and (3 in levels or len(masks) > 1)
     return {"nontrivial": partial,
             "classes": ["level%d" % l for l in sorted(levels)] +
-                       (["partial-collapse"] if partial else [])}
+                       (["partial-collapse"] if partial else []) +
+                       ["corner%d" % case.get("limit", 256)]}
 
 
 # -------------------------------------------------- single-chip region words
